@@ -168,6 +168,84 @@ def _(A, R):
     return out
 
 
+# ------------------------------------------------- one level of the pruned preorder traversal
+# Node.visit(visitor): the visitor sees this node first; unless it answers NEXT_SIBLING every child is visited, in list
+# order, with the same visitor, and nothing else happens.  The recursive calls are opaque (recursion hypothesis); the
+# statement is about the call sequence (ghost trace), for any number of children.
+from pyvc import trace as T                                    # noqa: E402
+from pyvc.contract import LoopSpec                             # noqa: E402
+from pyvc.stubs import STUBS as _STUBS                          # noqa: E402
+
+VISITOR, CHILDVISIT, WALKSELF, WALKCHILD = 1, 2, 3, 4
+SELF_ID = z3.Const("visited_node_id", T.OBJ.sort())
+jv_ = z3.Int("vis!j")
+
+
+def _child_visit(ex, st, recv, pos, kw, node):
+    ok = len(pos) == 1 and isinstance(pos[0], VFunc) and pos[0].payload == "$visitor"
+    T.emit(st, T.mk(CHILDVISIT, obj=recv.t, flag=z3.BoolVal(bool(ok))))       # flag: called with the SAME visitor
+    return [(st, VNone())]
+
+
+def _child_walk(ex, st, recv, pos, kw, node):
+    from pyvc.fsmodel import VHandle
+    return [(st, VHandle("childwalk", recv))]
+
+
+CHILD = Abstract("Obj", methods={"visit": _child_visit, "walk": _child_walk})
+
+
+def _visitor_stub(ex, st, pos, kw, node, star):
+    arg = pos[0] if len(pos) == 1 else None
+    same = isinstance(arg, VObj) and arg.oid == st.ghost.get("self_oid")
+    T.emit(st, T.mk(VISITOR, obj=SELF_ID, flag=z3.BoolVal(bool(same))))          # flag: called on this very node
+    r = INT.fresh(ex.ctx, "visit_answer")
+    st.ghost["answer"] = r
+    return [(st, r)]
+
+
+_STUBS["$visitor"] = _visitor_stub
+NODEOBJ = ObjSpec("Node", {"children": CellOf(SeqOf(CHILD))})
+
+nv = contract("codebasin.preprocessor:Node.visit", props=["C01", "C08"])
+nv.param("self", NODEOBJ).param("visitor", VFunc("builtin", "$visitor"))
+
+
+def _nv_setup(ctx, st):
+    T.init_symbolic(ctx, st)
+    st.ghost["trace0"] = T.value(st)
+    st.ghost["self_oid"] = st.env["self"].oid
+
+
+nv.setup = _nv_setup
+
+
+def _visit_shape(old, Tr, children, upto):
+    ev = lambda t, i: t.arr[i]         # noqa: E731
+    return [("earlier-trace-untouched", z3.ForAll([jv_], z3.Implies(z3.And(0 <= jv_, jv_ < old.n), ev(Tr, jv_) == ev(old, jv_)))),
+            ("the-visitor-sees-this-node-first", ev(Tr, old.n) == T.mk(VISITOR, obj=SELF_ID, flag=z3.BoolVal(True))),
+            ("children-visited-in-list-order-with-the-same-visitor",
+             z3.ForAll([jv_], z3.Implies(z3.And(0 <= jv_, jv_ < upto),
+                                         ev(Tr, old.n + 1 + jv_) == T.mk(CHILDVISIT, obj=children.arr[jv_], flag=z3.BoolVal(True)))))]
+
+
+@nv.ensures
+def _(A, R):
+    old = R.st.ghost["trace0"]
+    Tr = R.trace
+    ans = R.st.ghost.get("answer")
+    if ans is None:
+        return [("the visitor is called", z3.BoolVal(False))]
+    ch = A.self.children
+    pruned = ans.t == NEXT_SIBLING
+    return ([("pruned: nothing below is visited", z3.Implies(pruned, Tr.n == old.n + 1)),
+             ("not pruned: exactly one visit per child", z3.Implies(z3.Not(pruned), Tr.n == old.n + 1 + ch.n))]
+            + [(l, z3.Implies(z3.Not(pruned), f)) if "children" in l else (l, f) for l, f in _visit_shape(old, Tr, ch, ch.n)])
+
+
+nv.loop(0, LoopSpec(lambda L: [("trace-length", L.trace.n == L.args._st.ghost["trace0"].n + 1 + L.i)]
+                    + _visit_shape(L.args._st.ghost["trace0"], L.trace, L.args.self.children, L.i)))
+
 # ------------------------------------------------- node-kind table (syntactic)
 def _const_return(fi):
     """value of a `return <bool constant>` one-liner"""
@@ -202,6 +280,7 @@ UNITS = [
     "codebasin.platform:Platform.is_defined",
     "codebasin.platform:Platform.get_macro",
     "codebasin.finder:ParserState.associate.<locals>.associator",
+    "codebasin.preprocessor:Node.visit",
 ]
 
 ASSUMPTIONS = [
